@@ -561,9 +561,10 @@ _HI = lambda m: f"hi_index({_S}, {_AM.replace('[m]', '[' + m + ']')}, {_BM.repla
 
 class find_stackings_c:
     """Ghost state (proof-internal, never read by the code): SRC0[k] = position in structure.residues of the residue that
-    produced coordinates[k]; SRC2[m] = position in
-    the enumeration EN of kdtree.query_pairs of the index pair that produced pairs[m]; POS2[u] = position in pairs of
-    what step u appended (-1: nothing); SP = the list the last loop iterates over (sorted(pairs))."""
+    produced coordinates[k]; EN = the (arbitrary, duplicate-free) enumeration of kdtree.query_pairs(6.0) the second loop runs
+    over; SRC2[m] = position in EN of the index pair that produced pairs[m]; POS2[u] = position in pairs of what step u
+    appended (-1: nothing); SP = the list the last loop iterates over; SORTED_PI / SORTED_PINV = the rearrangement performed
+    by sorted() (identity if the list is iterated as it is)."""
     target = "find_stackings"
     params = {"structure": "Structure3D", "model": "opt[int]"}
     returns = "list[rec[Stacking]]"
